@@ -3165,6 +3165,8 @@ class TypeBlocks(ContainerOperand):
             return False
         if compare_dtype and self._dtypes != other._dtypes: # these are lists
             return False
+        if self._shape[1] == 0: # same shape without columns: no values to compare
+            return True
 
         # NOTE: TypeBlocks handles array operations that return Boolean
         try:
